@@ -32,6 +32,9 @@ pub struct WireInner {
     pub write_fail_at: Option<usize>,
     pub write_fail_kind: Option<io::ErrorKind>,
     pub write_calls: usize,
+    /// back-pressure: poll_write returns Pending until unblocked
+    pub write_blocked: bool,
+    writer_waker: Option<Waker>,
     pub write_errors: usize,
     pub shutdown_called: bool,
     pub dropped: bool,
@@ -138,9 +141,13 @@ impl AsyncRead for ScriptedIo {
 }
 
 impl AsyncWrite for ScriptedIo {
-    fn poll_write(self: Pin<&mut Self>, _cx: &mut Context<'_>, buf: &[u8]) -> Poll<io::Result<usize>> {
+    fn poll_write(self: Pin<&mut Self>, cx: &mut Context<'_>, buf: &[u8]) -> Poll<io::Result<usize>> {
         let mut w = self.0.lock().unwrap();
         w.write_calls += 1;
+        if w.write_blocked && !w.shutdown_called {
+            w.writer_waker = Some(cx.waker().clone());
+            return Poll::Pending;
+        }
         if w.shutdown_called {
             w.write_errors += 1;
             return Poll::Ready(Err(io::Error::new(io::ErrorKind::BrokenPipe, "write after shutdown")));
@@ -215,6 +222,17 @@ impl Wire {
         w.s2c.extend(bytes.iter().copied());
         if let Some(wk) = w.reader_waker.take() {
             wk.wake();
+        }
+    }
+
+    /// socket send buffer full (true) / drained (false)
+    pub fn block_writes(&self, on: bool) {
+        let mut w = self.0.lock().unwrap();
+        w.write_blocked = on;
+        if !on {
+            if let Some(wk) = w.writer_waker.take() {
+                wk.wake();
+            }
         }
     }
 
